@@ -132,9 +132,42 @@ pub fn gen_useless_crowd(r: &mut Rng, seed: u64) -> Scenario {
     Scenario { cfg: SimCfg { torrent, peers, tracker: vec![], failpoints: None, max_virtual_ms, stop_on_extract: true, linger_ms: 200, disk_on: disk_never, seed, pre: None, tracker_fn: None, driver: None }, desc, sig: hash64(&("useless-crowd", n, useful, useless)) }
 }
 
+/// Family: the holder of some pieces is known to the tracker only from the second announce on,
+/// while a useless peer that never goes away stays connected: the client has to re-announce when
+/// its candidates are used up although it still has a connection.
+pub fn gen_late_listed_holder(r: &mut Rng, seed: u64) -> Scenario {
+    let torrent = Rc::new(gen_sim_torrent(r, 8, true));
+    let n = torrent.n();
+    let split = r.range(0, n as u64 - 1) as usize; // pieces < split at P1 (may be none), the rest only at P2
+    let mut peers = vec![];
+    let mut pdesc = vec![];
+    let mut p1 = SeederCfg::honest(peer_id(0), (0..n).map(|i| i < split).collect());
+    p1.unchoke_after_ms = Some(0);
+    p1.idle_close_ms = r.range(500, 8_000);
+    let mut lingerer = SeederCfg::honest(peer_id(1), (0..n).map(|i| i == 0).collect());
+    lingerer.unchoke_after_ms = Some(10_000_000);
+    lingerer.chatter_ms = Some(r.range(20_000, 100_000));
+    lingerer.idle_close_ms = 100_000_000;
+    let mut p2 = SeederCfg::honest(peer_id(2), vec![true; n]);
+    p2.unchoke_after_ms = Some(0);
+    p2.idle_close_ms = 20_000;
+    pdesc.push(json!({"addr": addr(0), "essential": true, "pieces": format!("the first {} of {}", split, n), "leaves_after_idle_ms": p1.idle_close_ms}));
+    pdesc.push(json!({"addr": addr(1), "essential": false, "kind": "never unchokes, never leaves (repeats a Have now and then)"}));
+    pdesc.push(json!({"addr": addr(2), "essential": true, "pieces": "all", "listed_from_announce": 1}));
+    for (k, c, from) in [(0usize, p1, 0u64), (1, lingerer, 0), (2, p2, 1)] {
+        let c2 = c.clone();
+        peers.push(PeerSpec { addr: addr(k), id: peer_id(k), entry: Entry::Dialled { from_announce: from }, make: Box::new(move |nth| if nth > 4 { None } else { Some(seeder(c2.clone())) }), chunk: 0, pipe: 1 << 20 });
+    }
+    let desc = json!({"seed": seed, "family": "late-listed-holder-with-lingering-useless-peer", "pieces": n, "piece_length": torrent.piece_len, "peers": pdesc});
+    Scenario { cfg: SimCfg { torrent, peers, tracker: vec![], failpoints: None, max_virtual_ms: 600_000 + 360_000 * 4, stop_on_extract: true, linger_ms: 200, disk_on: disk_never, seed, pre: None, tracker_fn: None, driver: None }, desc, sig: hash64(&("late-listed", n, split)) }
+}
+
 pub fn gen_scenario(r: &mut Rng, seed: u64) -> Scenario {
     if r.chance(1, 8) {
         return gen_endgame_exclusive(r, seed);
+    }
+    if r.chance(1, 14) {
+        return gen_late_listed_holder(r, seed);
     }
     if r.chance(1, 12) {
         return gen_useless_crowd(r, seed);
